@@ -277,7 +277,10 @@ def hft_task(cls):
     batch_ty = ("list", ("ref", cls))
     runner = sym_obj("SequentialRunner", "runner"); session = sym_obj("Session", "session")
     all_orders = V(("list", batch_ty), z3.Const("all_orders", REF))
-    env = {"self": runner, "session": session, "all_orders": all_orders, "agent": sym_obj("Agent", "loop_agent"), "n_high_freq_orders": None, "agents": None}
+    # the counter and the agent list are (re)assigned at the start of every high-frequency phase; should a phase not assign them itself they are whatever an earlier
+    # batch left behind (arbitrary values here), and the loop invariant's initial condition `counter = 0` then fails by name instead of crashing the spec
+    env = {"self": runner, "session": session, "all_orders": all_orders, "agent": sym_obj("Agent", "loop_agent"),
+           "n_high_freq_orders": V(("int",), z3.Int("carried_n_high_freq_orders")), "agents": V(("list", ("ref", "Agent")), z3.Const("carried_agents", REF))}
 
     def consult(ex, st, recv, pos, kw, node):
         st = st.copy()
